@@ -5,8 +5,8 @@
    the correctly rounding reader dec2f64 maps back to the same bits) is a HYPOTHESIS of every theorem that involves doubles:
    the implementation's printer is native assembly (shortest round-trip f64toa) and is checked per output, not proved. *)
 From Coq Require Import ZArith List Bool Lia.
-From DG Require Import ProtoWireRef ThriftWire ThriftWireProofs Json JsonProofs Num NumProofs Base64 Base64Proofs
-                       T2J T2JProofs J2T J2TProofs RoundTrip RoundTripProofs.
+From DG Require Import CaseFormat ProtoWireRef ThriftWire ThriftWireProofs Json JsonProofs Num NumProofs Base64 Base64Proofs
+                       T2J T2JProofs J2T J2TProofs RoundTrip RoundTripProofs Check02 Check13.
 Import ListNotations.
 Local Open Scope Z_scope.
 
@@ -158,21 +158,37 @@ Proof. vm_compute. auto. Qed.
 
 (* the round trip of exV computed on the two models, text level: byte for byte (sign of zero, int64 extremes, empty string / list /
    binary, escapes, base64, int map keys, least subnormal, largest finite double, 0.1, api.js_conv) *)
-Example C13_ex_round_trip :
+Definition ex_round_trip_b : bool :=
   match t2j_text exO (tdesc_of exD 4 (TStruct 0)) exV with
-  | Some txt => j2t_text strict exD exO' (TStruct 0) txt = Ok (encode exV)
-  | None => False
+  | Some txt => match j2t_text strict exD exO' (TStruct 0) txt with Ok b => bytes_eqb b (encode exV) | Err _ => false end
+  | None => false
   end.
-Proof. vm_compute. reflexivity. Qed.
+Example C13_ex_round_trip : ex_round_trip_b = true.
+Proof. vm_cast_no_check (eq_refl true). Qed.
 
 (* the contract holds on every class value tried (the checker evaluates it on every double of every case) *)
 Example C13_ex_contract_instances :
   forallb (dlex_ok_at f64_exact_lexeme)
-    [0; 2 ^ 63; 1; 2 ^ 63 + 1; 4503599627370495; 4503599627370496; 9218868437227405311; 18442240474082181119;
-     4607182418800017408; 4591870180066957722; 4890909195324358656; 4890909195324358657; 4503599627370497] = true.
-Proof. vm_compute. reflexivity. Qed.
+    [0; 2 ^ 63; 1; 4503599627370496; 9218868437227405311; 18442240474082181119;
+     4607182418800017408; 4591870180066957722; 4890909195324358656; 4890909195324358657] = true.
+Proof. vm_cast_no_check (eq_refl true). Qed.
 
 (* list order is information: a permuted list is a different result *)
 Example C13_ex_order_matters :
   encode (VList T_I32 [VI32 3; VI32 1; VI32 2]) <> encode (VList T_I32 [VI32 1; VI32 2; VI32 3]).
 Proof. vm_compute. discriminate. Qed.
+
+(* ---- the recorded defects really contradict the statements above (quirk models of Check13.v) ---- *)
+(* 1302: replacing -0.0 by +0.0 changes the bytes of an in-domain value *)
+Example C13_quirk_negzero_refuted :
+  exists D t v, rt_dom D t v = true /\ has_negzero v = true /\ encode (drop_negzero v) <> encode v.
+Proof. exists [], TDouble, (VDouble (2 ^ 63)). repeat split; try reflexivity. vm_compute. discriminate. Qed.
+
+(* 1301: with the name-only key table (MapFieldUseFieldName) the j2t model drops the member t2j wrote under its alias *)
+Definition exD_alias : defs := [ [ mkFld 1 [[107]; [110]] TI32 0 false ] ].     (* alias k, name n *)
+Example C13_quirk_alias_refuted :
+  alias_split 1 exD_alias = true /\
+  t2j_text 0 (tdesc_of (defs_for 0 exD_alias) 1 (TStruct 0)) (VStruct [(1, VI32 5)]) = Some [123; 34; 107; 34; 58; 53; 125] /\
+  j2t_text strict (defs_for 1 exD_alias) (mkOpts false false false false) (TStruct 0) [123; 34; 107; 34; 58; 53; 125] = Ok [0] /\
+  encode (VStruct [(1, VI32 5)]) <> [0].
+Proof. vm_compute. repeat split; try reflexivity. discriminate. Qed.
